@@ -110,3 +110,9 @@ pub fn sym_b() -> String { String::new() }
 #[derive(TS)] #[ts(bound = "T: TS")] pub struct S10<T: Clone> { pub a: T }
 #[derive(TS)] #[ts(tag = "t", content = "c", rename_all = "snake_case")] pub enum S11<T> { FooBar(T), BazQux { qu_ux: T }, #[ts(rename = "X")] Y(T, T) }
 #[derive(TS)] #[ts(untagged)] pub enum S12<T> { A(T), B { v: T }, C, D(T, T) }
+#[derive(TS)] #[ts(optional_fields)] pub struct OF1<T: TS> { #[ts(optional)] pub a: Option<T>, #[ts(optional = nullable)] pub b: Option<Vec<T>>, pub c: Option<bool>, pub d: i32 }
+#[derive(TS)] pub enum OF2<T> { A { #[ts(optional)] a: Option<T>, b: T }, B { #[ts(optional = nullable)] c: Option<Vec<T>> } }
+#[derive(TS)] pub struct IN1<T> { #[ts(inline)] pub a: Inner<T>, pub b: Inner<T> }
+#[derive(TS)] pub struct IN2<T> { pub a: Inner<T>, #[ts(inline)] pub b: Inner<T> }
+#[derive(TS)] pub struct IN3<T> { #[ts(flatten)] pub a: Inner<T>, pub b: Inner<T> }
+#[derive(TS)] pub enum IN4<T> { A { #[ts(inline)] a: Inner<T>, b: Inner<T> }, B(Inner<T>, #[ts(inline)] Inner<T>) }
